@@ -12,6 +12,7 @@ type Feat struct {
 	MaxOps         int
 	MaxParams      int
 	DeepBias       bool // new scopes preferably below the deepest existing one
+	Huge           bool // a very long, registration-heavy history
 	Export         bool
 	Objects        bool
 	EmbedObjs      bool // nested parameter objects may be embedded (anonymous) fields
@@ -416,7 +417,7 @@ func (g *genCtx) genDecorator(s int) *Func {
 	seen := map[Key]bool{}
 	for i := 0; i < n; i++ {
 		var k Key
-		if len(av) > 0 && (g.r.P(0.97) || !g.ft.DecoIntroduce) {
+		if len(av) > 0 && (g.r.P(0.85) || !g.ft.DecoIntroduce) {
 			k = av[g.r.Intn(len(av))]
 		} else if g.ft.DecoIntroduce {
 			k, _ = g.randomKey(g.ft.NT, groups)
@@ -838,6 +839,7 @@ func BaseFeat(r *Rng, thorough bool) Feat {
 	ft.NamedSlice = r.P(0.25)
 	ft.PVariadic = []float64{0.1, 0.1, 0.4}[r.Intn(3)]
 	ft.PWide = []float64{0, 0, 0.03}[r.Intn(3)]
+	ft.Huge = r.P(0.004)
 	ft.PThenProvide = []float64{0, 0, 0.06}[r.Intn(3)]
 	ft.Info = r.P(0.3)
 	ft.PErrFirst = []float64{0, 0.15, 0.3}[r.Intn(3)]
@@ -1239,5 +1241,91 @@ func (g *genCtx) reenterShape(f *Func, s int) {
 	f.ReCB = g.r.P(0.4)
 	if f.ReCB {
 		f.Callback = true
+	}
+}
+
+// tmplGroupFailure (declared functions only): three or four constructors feed
+// one value group, one of them -- most often the last one registered -- fails;
+// the group is requested and the error is handed to Visualize.
+func (g *genCtx) tmplGroupFailure() {
+	if !g.ft.Catalog || len(catSpecs) == 0 {
+		return
+	}
+	s := g.pickScope()
+	path := g.m.Path(s)
+	cands := map[Key][]int{}
+	var order []Key
+	for _, idx := range g.r.Perm(catCtors) {
+		spec := &catSpecs[idx]
+		if g.catUsed[idx] || !g.depsVisible(s, spec) {
+			continue
+		}
+		free := true
+		for _, k := range singleKeys(spec.LeafResults()) {
+			for _, x := range path {
+				if len(g.m.S[x].Prov[k]) > 0 {
+					free = false
+				}
+			}
+		}
+		if !free {
+			continue
+		}
+		for _, r := range spec.LeafResults() {
+			for _, k := range r.Keys {
+				if k.IsGroup() {
+					if len(cands[k]) == 0 {
+						order = append(order, k)
+					}
+					cands[k] = append(cands[k], idx)
+				}
+			}
+		}
+	}
+	for _, k := range order {
+		if len(cands[k]) < 3 {
+			continue
+		}
+		n := g.r.Range(3, 4)
+		if n > len(cands[k]) {
+			n = len(cands[k])
+		}
+		var fns []int
+		used := map[Key]bool{}
+		for _, idx := range cands[k] {
+			if len(fns) == n {
+				break
+			}
+			clash := g.catUsed[idx]
+			for _, sk := range singleKeys(catSpecs[idx].LeafResults()) {
+				clash = clash || used[sk]
+			}
+			if clash {
+				continue
+			}
+			for _, sk := range singleKeys(catSpecs[idx].LeafResults()) {
+				used[sk] = true
+			}
+			f := g.fromCatalog(idx)
+			ps := path[g.r.Intn(len(path))]
+			i := g.addOp(Op{Kind: OpProvide, Scope: ps, Fn: f.ID, Tag: "group-failure"})
+			if g.m.PredictProvide(ps, f) == PredOK {
+				g.m.AddCtor(ps, i, f)
+			}
+			fns = append(fns, f.ID)
+		}
+		if len(fns) < 3 {
+			return
+		}
+		bad := fns[len(fns)-1]
+		if g.r.P(0.3) {
+			bad = fns[g.r.Intn(len(fns))]
+		}
+		g.h.Faults = append(g.h.Faults, Fault{Fn: bad, From: 0, To: -1, Kind: FaultKind(g.r.Range(1, 3))})
+		inv := g.newFunc(RoleInv)
+		inv.Params = []Param{{Kind: PObj, Fields: []Param{{Kind: PGroup, T: k.T, Group: k.Group}}}}
+		g.addOp(Op{Kind: OpInvoke, Scope: s, Fn: inv.ID, Tag: "group-failure"})
+		g.addOp(Op{Kind: OpVisualize, ErrFrom: len(g.h.Ops)})
+		return
 	}
 }
